@@ -333,6 +333,126 @@ def run_job(lines, corrupt=(), holds=None, deadline=20.0, pauses=()):
             "job": [list(x.encode("ascii")) for x in job], "raw": lines, "ev": ev}
 
 
+def run_life(jobs, actions, corrupt=(), holds=None, deadline=25.0):
+    """The job life cycle of the real printcore (beyond C15): several startprint() calls, pause(), resume(),
+    cancelprint() and the host command ';@pause' inside a job.
+    jobs: list of jobs (lists of raw lines); the first is started at once.
+    actions: [{"when": "ntx", "n": k, "do": "pause"|"cancel"} | {"when": "paused", "do": "resume"|"cancel"} |
+              {"when": "idle", "do": "start"}], taken in order; an "ntx" action whose print ended first is dropped.
+    Logged besides tx / rel: "start" (before startprint), "pause" / "cancel" (after the call returned: the print thread
+    is joined), "resume" (before the call), "end"."""
+    from gscrib.printrun import gcoder
+    from gscrib.printrun.printcore import printcore
+    hub = Hub(corrupt=corrupt, holds=holds)
+    joined = False
+    pending = [dict(a) for a in actions]
+    nextjob = 0
+
+    def drain(limit=2.0):
+        t1 = time.monotonic()
+        while time.monotonic() - t1 < limit:
+            hub.pump()
+            with hub.lock:
+                if not hub.owed and not hub.released:
+                    break
+            time.sleep(0.001)
+        time.sleep(0.03)
+
+    with patched(hub):
+        p = printcore()
+        p.loud = False
+        try:
+            p.connect("/mocked/port", 115200)
+            t0 = time.monotonic()
+            while not p.online and time.monotonic() - t0 < 5:
+                time.sleep(0.002)
+            if not p.online:
+                raise RuntimeError("host never came online")
+            with hub.lock:
+                hub.online = True
+            time.sleep(0.05)
+            with hub.lock:
+                hub.released.clear()
+            hub.log({"k": "start", "job": nextjob + 1})
+            if not p.startprint(gcoder.GCode(jobs[nextjob])):
+                raise RuntimeError("startprint refused")
+            nextjob += 1
+            t0 = time.monotonic()
+            idle_since = None
+            while time.monotonic() - t0 < deadline:
+                moved = hub.pump()
+                idle = (not p.printing) and p.print_thread is None and not p.paused
+                with hub.lock:
+                    quiet = not hub.owed and not hub.released
+                a = pending[0] if pending else None
+                if a and a["when"] == "ntx" and idle:
+                    pending.pop(0)                       # the print ended before the trigger: moot
+                    continue
+                if a and a["when"] == "ntx" and hub.ntx >= a["n"] and p.printing:
+                    pending.pop(0)
+                    if a["do"] == "pause":
+                        if p.pause() is not False:
+                            hub.log({"k": "pause"})
+                    else:
+                        p.cancelprint()
+                        hub.log({"k": "cancel"})
+                    drain()
+                    continue
+                if a and a["when"] == "paused" and p.paused and not p.printing and p.print_thread is None:
+                    pending.pop(0)
+                    drain()
+                    if a["do"] == "resume":
+                        hub.log({"k": "resume"})
+                        p.resume()
+                    else:
+                        p.cancelprint()
+                        hub.log({"k": "cancel"})
+                        drain()
+                    continue
+                if a and a["when"] == "paused" and idle and quiet:
+                    pending.pop(0)                       # never paused (e.g. cancelled before): moot
+                    continue
+                if a and a["when"] == "idle" and idle and quiet and nextjob < len(jobs):
+                    if idle_since is None:
+                        idle_since = time.monotonic()
+                    elif time.monotonic() - idle_since > 0.05:
+                        pending.pop(0)
+                        idle_since = None
+                        hub.log({"k": "start", "job": nextjob + 1})
+                        if not p.startprint(gcoder.GCode(jobs[nextjob])):
+                            raise RuntimeError("startprint refused")
+                        nextjob += 1
+                    continue
+                if not pending and idle and quiet:
+                    if idle_since is None:
+                        idle_since = time.monotonic()
+                    elif time.monotonic() - idle_since > 0.05:
+                        joined = True
+                        break
+                elif not (a and a["when"] == "idle"):
+                    idle_since = None
+                if not moved:
+                    time.sleep(0.001)
+        finally:
+            hub.log({"k": "end", "joined": joined})
+            try:
+                p.cancelprint()
+                hub.closed = False
+                p.disconnect()
+            except Exception:
+                pass
+    ev = [e for e in hub.events if e["k"] in ("tx", "rel", "end", "pause", "resume", "cancel", "start")]
+    for e in ev:
+        e.setdefault("text", [])
+        e.setdefault("bad", False)
+        e.setdefault("joined", False)
+        e.setdefault("job", 0)
+        e.pop("i", None)
+    return {"meta": {"corrupt": sorted(corrupt), "holds": {str(k): v for k, v in (holds or {}).items()}, "actions": actions,
+                     "unserved": len(pending)},
+            "jobs": jobs, "ev": ev}
+
+
 # ----------------------------------------------------------------------------
 # Direct write (C16) and report parsing (C18)
 
